@@ -97,7 +97,7 @@ class Ctx:
             gname = "G%d_%s" % (gi, g["base"])
             n, states, secs = tlc_generate(d, gname, g["base"], consts, body, part, defaults=gdefaults,
                                            simulate=g.get("simulate"), seed=self.seed, append=False,
-                                           timeout=g.get("timeout", 1800), workers=g.get("workers") or 4)
+                                           timeout=g.get("timeout", 1800 if self.quick else 7200), workers=g.get("workers") or 4)
             return part, {"spec": g["base"], "behaviours": n, "tlc_states": states, "secs": round(secs, 1),
                           "mode": "simulate" if g.get("simulate") else "exhaustive",
                           "bounds": {k: v for k, v in g.get("consts", {}).items() if isinstance(v, (int, str))}}, states
@@ -133,7 +133,7 @@ class Ctx:
         skip = []
         while True:
             res = tlc_validate(d, trace, invariants + (["Conf_All"] if conform else []), skip=skip, name=trace_module,
-                               timeout=validate_timeout)
+                               timeout=validate_timeout if self.quick else 4 * 3600)
             for layer, whos in res.get("drift", {}).items():
                 dr = self.cov.setdefault("drift", {})
                 dr[layer] = dr.get(layer, 0) + len(whos)
@@ -198,7 +198,7 @@ class Ctx:
         if constraint:
             cfgtext += "CONSTRAINT %s\n" % constraint
         cfgtext += gen_module(d, "MCRUN", module, consts)
-        rc, outp, secs = run_tlc(d, "MCRUN", cfgtext, timeout=timeout, workers=workers)
+        rc, outp, secs = run_tlc(d, "MCRUN", cfgtext, timeout=timeout if self.quick else 4 * 3600, workers=workers)
         gen, dist = tlc_stats(outp)
         text = open(outp, errors="replace").read()
         if rc != 0 or "No error has been found" not in text:
